@@ -9,7 +9,7 @@ from vlib import predicates as P  # noqa
 
 PREDS = ["joint_impossible_combo", "pin_on_inapplicable_trial", "atleast_tail", "derived_over_complex",
          "window_wider_than_trials", "crossed_derived_over_uncrossed_derived", "runlength_on_stride",
-         "partial_window", "has_weighted_uncrossed", "exclude_source_of_crossed_derived"]
+         "partial_window", "has_weighted_uncrossed", "exclude_source_of_crossed_derived", "shared_weighted_uncrossed_in_subblock"]
 pid = sys.argv[1]
 for f in sorted(glob.glob(os.path.join(os.path.dirname(os.path.dirname(os.path.abspath(__file__))), "replay", pid, "*.json"))):
     d = json.load(open(f))
